@@ -50,6 +50,7 @@ func H_ix_skel() {
 	if err != nil {
 		vAssume(false)
 	}
+	vBuildOther(vParamDef("other", 0))
 	// every indexed key returns its record
 	okAll := true
 	for i := range keys {
@@ -143,6 +144,34 @@ func vUniqSorted(ks []string) []string {
 }
 
 
+
+// vBuildOther builds (and drops) a second, unrelated index: nothing a later build does may
+// disturb an index that is still alive (shared scratch memory, pools, caches).
+func vBuildOther(kind int) {
+	if kind == 0 {
+		return
+	}
+	var keys []string
+	switch kind {
+	case 1:
+		keys = []string{"pa", "pbc", "pbd", "q"}
+	case 2:
+		keys = []string{"\x00\x10", "\x00\x11\x7f", "\x00\x11\x80"}
+	default:
+		keys = vSweep(40)
+	}
+	items := make([]OffsetIndexItem, len(keys))
+	offs := make([]int64, len(keys))
+	recs := make([]string, len(keys))
+	for i := range keys {
+		offs[i] = int64(i) * 7
+		recs[i] = "o"
+		items[i] = OffsetIndexItem{Key: keys[i], Offset: offs[i]}
+	}
+	_, err := NewSlimIndex(items, &vRecReader{keys: keys, offs: offs, recs: recs})
+	vAssert(err == nil, "build-ok")
+}
+
 type vRecReader struct {
 	keys []string
 	offs []int64
@@ -201,6 +230,7 @@ func H_ix_exact() {
 	if err != nil {
 		vAssume(false)
 	}
+	vBuildOther(vParamDef("other", 0))
 	q := vString("q", vParam("lq"))
 	var rec string
 	var found bool
